@@ -356,63 +356,98 @@ theorem acked_batch_executed_in_order (slotOf : Key → Slot) (sv : Srv) (slots 
     Model/ClusterSegments.lean. An execution = any list of segments (each: the stored position
     is read from the target, batches are sent from there, each batch is acknowledged completely
     or cut at any point, the segment ends cleanly / on a receiver error / by a close / by a
-    hand-over). The per-segment theorems above are what makes a batch admissible
-    (`AppOK`: within its range, nothing twice — `per_key_order_partial`; `Complete`: an
-    acknowledged batch executed everything, per group in order — `redirect_never_loses`,
-    `unexecuted_blocks_ok`). Quantifier: every stream length `n`, every grouping `grp`, every
-    list of segments / events, any number of them, any end reasons, any cut inside a batch. -/
+    hand-over). What the theorems ASSUME of every event (the guards of `step`, i.e. the
+    hypothesis `run … = some s`) is the content of the per-segment theorems above — `AppOK`:
+    within its range, nothing twice (`per_key_order_partial`); `Complete`: an acknowledged batch
+    executed everything, per group in order (`acked_batch_executed_in_order`,
+    `unexecuted_blocks_ok`) — plus two NAMED assumptions: `Disciplined` (the blocking discipline:
+    a batch that was not acknowledged stores no position) and, where stated, `PrefixRun` (fault
+    model: a cut batch executes per group a prefix of its part). What is DERIVED is the
+    composition: restart-from-stored, the position arithmetic, no skip across replays, the
+    effective stream. Quantifier: every stream length `n`, every grouping `grp`, every list of
+    segments / events, any number, any cut inside a batch, position-only flushes (`q = cur`). -/
+
+open GunYu.ClusterSegments in
+/-- (1) the per-group log on the target — the real one, every execution, in order — NEVER SKIPS:
+    directly after a command `x` of a group comes either an earlier-or-equal one (a replay jumps
+    back) or the group's next command; no command of the group lies strictly between. A replay
+    may repeat a suffix, it never leaves a gap. -/
+theorem segments_never_skip (n : Nat) (grp : Nat → Nat) (evs : List ClusterSegments.Ev) (s : Tgt)
+    (h : ClusterSegments.run n grp {} evs = some s) (hd : Disciplined evs)
+    (hp : PrefixRun n grp {} evs) (g : Nat) :
+    Adj (NoSkipRel grp g) (projG grp g s.log) :=
+  (KInv_run n grp evs _ s (SInv_init n grp) (KInv_init grp) hd hp h).adj g
 
 open GunYu.ClusterSegments in
 /-- (1) whatever happened before — any number of segments, cuts, replays — the target's
-    EFFECTIVE stream (last execution of every command) below the sender's position, and below
-    the stored position, is per group exactly the specification prefix, in order -/
+    EFFECTIVE stream (the last execution of every command: the final state for overwriting
+    commands) below the sender's position, and below the stored position, is per group exactly
+    the specification prefix, in order -/
 theorem segments_effective_prefix (n : Nat) (grp : Nat → Nat) (sgs : List Segment) (s : Tgt)
-    (h : runSegments n grp {} sgs = some s) (g : Nat) :
+    (h : runSegments n grp {} sgs = some s) (hd : Disciplined (sgs.flatMap Segment.events)) (g : Nat) :
     effBelow grp s.log s.cur g = specBelow grp s.cur g ∧
     effBelow grp s.log s.stored g = specBelow grp s.stored g := by
-  have hi := SInv_run n grp _ _ s (SInv_init n grp) h
+  have hi := SInv_run n grp _ _ s (SInv_init n grp) hd h
   exact ⟨hi.eff g, effBelow_mono grp s.log s.cur s.stored g hi.le1 (hi.eff g)⟩
 
 open GunYu.ClusterSegments in
-/-- (1) under the fault model "a slot is redirected / a connection is lost / the run is
-    closed" (a cut batch executes, per group, a prefix of its part) the SET of executed
-    commands is per group a prefix of the specification stream at every moment -/
-theorem segments_executed_downward_closed (n : Nat) (grp : Nat → Nat) (evs : List ClusterSegments.Ev) (s : Tgt)
-    (h : ClusterSegments.run n grp {} evs = some s) (hp : PrefixRun n grp {} evs) : DownClosed grp s.log :=
-  DownClosed_run n grp evs _ s (SInv_init n grp) (fun _ hi => absurd hi List.not_mem_nil) hp h
+/-- (1) under the fault model the SET of executed commands is per group a prefix of the
+    specification stream at every moment -/
+theorem segments_executed_downward_closed (n : Nat) (grp : Nat → Nat) (evs : List ClusterSegments.Ev)
+    (s : Tgt) (h : ClusterSegments.run n grp {} evs = some s) (hd : Disciplined evs)
+    (hp : PrefixRun n grp {} evs) : DownClosed grp s.log :=
+  DownClosed_run n grp evs _ s (SInv_init n grp) (fun _ hi => absurd hi List.not_mem_nil) hd hp h
 
 open GunYu.ClusterSegments in
 /-- (1) replay only re-executes what was not yet acknowledged-and-stored: every batch, in
     every segment, executes commands at or above the position stored at that moment -/
-theorem segments_replay_only_unstored (n : Nat) (grp : Nat → Nat) (evs : List ClusterSegments.Ev) (s1 s2 : Tgt)
-    (q : Nat) (o : Outcome) (h1 : ClusterSegments.run n grp {} evs = some s1)
+theorem segments_replay_only_unstored (n : Nat) (grp : Nat → Nat) (evs : List ClusterSegments.Ev)
+    (s1 s2 : Tgt) (q : Nat) (o : Outcome) (hd : Disciplined evs)
+    (h1 : ClusterSegments.run n grp {} evs = some s1)
     (h2 : ClusterSegments.step n grp s1 (.batch q o) = some s2) :
     ∃ app, s2.log = s1.log ++ app ∧ ∀ i ∈ app, s1.stored ≤ i :=
-  batch_above_stored n grp (SInv_run n grp _ _ s1 (SInv_init n grp) h1) h2
+  batch_above_stored n grp (SInv_run n grp _ _ s1 (SInv_init n grp) hd h1) h2
 
 open GunYu.ClusterSegments in
-/-- (1) without a replay (no new segment, no cut batch) nothing is executed twice -/
-theorem segments_no_replay_no_duplicate (n : Nat) (grp : Nat → Nat) (evs : List ClusterSegments.Ev) (s : Tgt)
-    (ho : OnlyAcked evs) (h : ClusterSegments.run n grp {} evs = some s) : s.log.Nodup :=
+/-- (1) without a replay (one segment, every batch acknowledged) nothing is executed twice -/
+theorem segments_no_replay_no_duplicate (n : Nat) (grp : Nat → Nat) (evs : List ClusterSegments.Ev)
+    (s : Tgt) (ho : OnlyAcked evs) (h : ClusterSegments.run n grp {} evs = some s) : s.log.Nodup :=
   (no_replay_nodup n grp evs _ s List.nodup_nil (fun _ hi => absurd hi List.not_mem_nil) ho h).1
 
 open GunYu.ClusterSegments in
 /-- (2) the stored position never moves backwards across events and segments, never exceeds
     what was acknowledged, and everything below what was acknowledged has been executed -/
-theorem segments_position_sound (n : Nat) (grp : Nat → Nat) (evs1 evs2 : List ClusterSegments.Ev) (s1 s2 : Tgt)
+theorem segments_position_sound (n : Nat) (grp : Nat → Nat) (evs1 evs2 : List ClusterSegments.Ev)
+    (s1 s2 : Tgt) (hd1 : Disciplined evs1) (hd2 : Disciplined evs2)
     (h1 : ClusterSegments.run n grp {} evs1 = some s1) (h2 : ClusterSegments.run n grp s1 evs2 = some s2) :
     s1.stored ≤ s2.stored ∧ s2.stored ≤ s2.acked ∧ s2.acked ≤ n ∧ ∀ i, i < s2.acked → i ∈ s2.log := by
-  have hi1 := SInv_run n grp _ _ s1 (SInv_init n grp) h1
-  have hi2 := SInv_run n grp _ _ s2 hi1 h2
-  exact ⟨stored_mono_run n grp evs2 s1 s2 hi1 h2, Nat.le_trans hi2.le1 hi2.le2, hi2.le3, hi2.inlog⟩
+  have hi1 := SInv_run n grp _ _ s1 (SInv_init n grp) hd1 h1
+  have hi2 := SInv_run n grp _ _ s2 hi1 hd2 h2
+  exact ⟨stored_mono_run n grp evs2 s1 s2 hi1 hd2 h2, Nat.le_trans hi2.le1 hi2.le2, hi2.le3, hi2.inlog⟩
 
 open GunYu.ClusterSegments in
-/-- (3) once a (clean) segment has brought the sender to the end of the stream, the target's
-    effective stream is, per group, exactly the specification -/
-theorem segments_clean_final_equals_spec (n : Nat) (grp : Nat → Nat) (sgs : List Segment) (s : Tgt)
-    (h : runSegments n grp {} sgs = some s) (hend : s.cur = n) (g : Nat) :
+/-- (3) after a final CLEAN segment (every batch acknowledged, the last one ending at the end of
+    the stream) the target's effective stream is, per group, exactly the specification -/
+theorem segments_clean_final_equals_spec (n : Nat) (grp : Nat → Nat) (sgs : List Segment)
+    (last : Segment) (s : Tgt)
+    (h : runSegments n grp {} (sgs ++ [last]) = some s)
+    (hd : Disciplined ((sgs ++ [last]).flatMap Segment.events))
+    (hc : last.ending = .clean) (hw : last.wellFormed)
+    (hn : last.batches.getLast?.map (·.1) = some n) (g : Nat) :
     (keepLast s.log).filter (fun i => grp i == g) = (List.range n).filter (fun i => grp i == g) := by
-  have hi := SInv_run n grp _ _ s (SInv_init n grp) h
+  have hi := SInv_run n grp _ _ s (SInv_init n grp) hd h
+  -- the last segment brought the sender to n
+  have hend : s.cur = n := by
+    unfold runSegments at h
+    rw [List.flatMap_append, run_append] at h
+    cases h1 : ClusterSegments.run n grp {} (sgs.flatMap Segment.events) with
+    | none => rw [h1] at h; exact nomatch h
+    | some s1 =>
+      rw [h1] at h
+      simp only [Option.bind_some, List.flatMap_cons, List.flatMap_nil, List.append_nil,
+        Segment.events, ClusterSegments.run, ClusterSegments.step] at h
+      have := run_ok_batches_cur n grp last.batches _ s (hw.1 hc) h
+      rw [this, hn]; rfl
   have he := hi.eff g
   rw [hend] at he
   unfold effBelow specBelow at he
@@ -425,38 +460,41 @@ theorem segments_clean_final_equals_spec (n : Nat) (grp : Nat → Nat) (sgs : Li
 /-! the statement without the blocking discipline, and why it is kept apart -/
 
 open GunYu.ClusterSegments in
-/-- full statement for an arbitrary sender (`runner`): the stored position is covered by
+/-- full statement, for ANY sender (no discipline assumed): the stored position is covered by
     executed commands -/
-def stored_position_covered_stmt (runner : Tgt → List PEv → Option Tgt) : Prop :=
-  ∀ (evs : List PEv) (s : Tgt), runner {} evs = some s → ∀ i, i < s.stored → i ∈ s.log
+def stored_position_covered_stmt : Prop :=
+  ∀ (n : Nat) (grp : Nat → Nat) (evs : List ClusterSegments.Ev) (s : Tgt),
+    ClusterSegments.run n grp {} evs = some s → ∀ i, i < s.stored → i ∈ s.log
 
 open GunYu.ClusterSegments in
-/-- blocking modes: proved (no position is ever stored ahead) -/
-theorem stored_position_covered_blocking (n : Nat) (grp : Nat → Nat) (evs : List ClusterSegments.Ev) (s : Tgt)
-    (h : ClusterSegments.run n grp {} evs = some s) : ∀ i, i < s.stored → i ∈ s.log := by
-  have hi := SInv_run n grp _ _ s (SInv_init n grp) h
+/-- blocking discipline: proved -/
+theorem stored_position_covered_blocking (n : Nat) (grp : Nat → Nat) (evs : List ClusterSegments.Ev)
+    (s : Tgt) (hd : Disciplined evs) (h : ClusterSegments.run n grp {} evs = some s) :
+    ∀ i, i < s.stored → i ∈ s.log := by
+  have hi := SInv_run n grp _ _ s (SInv_init n grp) hd h
   intro i hlt
   exact hi.inlog i (by have := hi.le1; have := hi.le2; omega)
 
 open GunYu.ClusterSegments in
-/-- pipelined mode (C19-F2): a position written for a dispatched, not yet acknowledged batch,
-    then the batch is cut: the stored position covers a command that never executed -/
-theorem stored_position_covered_pipelined_false :
-    ¬ stored_position_covered_stmt (prun 2 (fun _ => 0)) := by
+/-- without it (pipelined modes, C19-F2; transactional cluster mode before 5c65a57): a
+    cut batch that stores its position all the same — the stored position covers a command that
+    never executed -/
+theorem stored_position_covered_pipelined_false : ¬ stored_position_covered_stmt := by
   intro h
-  have := h [.ev .start, .storeAhead 2, .ev (.batch 2 (.cut [1]))]
+  have := h 2 (fun _ => 0) [.start, .batch 2 (.cut [1] true)]
     { log := [1], stored := 2, acked := 0, cur := 0 } (by decide) 0 (by decide)
   revert this
   decide
 
 /-! non-vacuity: three segments — a receiver error in the middle of a batch, a hand-over, a
-    clean one — over two groups (even / odd positions), with an interleaved acknowledged batch -/
+    clean one with a position-only flush — over two groups (even / odd positions), with an
+    interleaved acknowledged batch -/
 
 open GunYu.ClusterSegments in
 def segsEx : List Segment := [
-  { batches := [(2, .ok [0, 1] true), (5, .cut [2, 4])], ending := .receiverError },
+  { batches := [(2, .ok [0, 1] true), (5, .cut [2, 4] false)], ending := .receiverError },
   { batches := [(4, .ok [3, 2] false)], ending := .handOver },
-  { batches := [(6, .ok [2, 3, 4, 5] true)], ending := .clean }]
+  { batches := [(6, .ok [2, 3, 4, 5] false), (6, .ok [] true)], ending := .clean }]
 
 open GunYu.ClusterSegments in
 example : (runSegments 6 (· % 2) {} segsEx).map (fun s => (s.log, s.stored, s.acked, s.cur, keepLast s.log)) =
@@ -464,9 +502,24 @@ example : (runSegments 6 (· % 2) {} segsEx).map (fun s => (s.log, s.stored, s.a
 open GunYu.ClusterSegments in
 example : ∀ sg ∈ segsEx, sg.wellFormed := by decide
 open GunYu.ClusterSegments in
+example : Disciplined (segsEx.flatMap Segment.events) := by
+  intro e he
+  simp [segsEx, Segment.events] at he
+  rcases he with rfl | rfl | rfl | rfl | rfl | rfl | rfl | rfl <;> simp [cutStoresNothing]
+open GunYu.ClusterSegments in
 example : PrefixRun 6 (· % 2) {} (segsEx.flatMap Segment.events) := prefixRun_of_B _ _ _ _ (by decide)
+open GunYu.ClusterSegments in
+/-- the per-group logs of the example: group 0 = 0,2,4 | 2 | 2,4 — jumps back, never skips -/
+example : (runSegments 6 (· % 2) {} segsEx).map (fun s => (projG (· % 2) 0 s.log, projG (· % 2) 1 s.log)) =
+    some ([0, 2, 4, 2, 2, 4], [1, 3, 3, 5]) := by decide
 open GunYu.ClusterSegments in
 /-- a batch whose acknowledged part is not complete is not a step -/
 example : (ClusterSegments.run 4 (· % 2) {} [.start, .batch 4 (.ok [0, 1, 3] true)]).isNone := by decide
+open GunYu.ClusterSegments in
+/-- a cut batch that executes out of order / with a gap inside a group (2 before 1, 0 missing)
+    is a run of the bookkeeping model but NOT of the fault model: `PrefixRun` excludes it, and
+    without it the log does skip — the hypothesis is needed -/
+example : (ClusterSegments.run 3 (fun _ => 0) {} [.start, .batch 3 (.cut [2, 1] false), .batch 3 (.ok [0, 1, 2] true)]).isSome ∧
+    ¬ PrefixCut (fun _ => 0) 0 3 [2, 1] := by decide
 
 end GunYu.Props.C19
